@@ -3,6 +3,7 @@ CONSTANTS
   Dev_PruneWithoutReap = TRUE
   Dev_AfterSpawnKillDetached = TRUE
   Dev_BuiltinIgnoreList = TRUE
+  Dev_AddEmptyNameReturns = TRUE
 INIT Init
 NEXT Next
 CONSTRAINT Progress
